@@ -52,6 +52,15 @@ CHECKS.update({
             "Watermark invariant is stated over the prefix of marks the process goroutine has consumed (a Begin issued later re-begins an index the mark may already cover).", "3/C34"),
 })
 
+CHECKS.update({
+    "C09": ("fault_enumeration", "deterministic simulation + torn-append synthesis at every byte of the last record, recovered by the real Open",
+            "Right after WAL, value-log and MANIFEST appends of generated histories the record just written is cut at every byte (short records) or at boundaries plus sampled interior offsets, with the remainder zero-filled or the file ending at the cut; every image is re-opened with the real code and must give a commit prefix with every acknowledged commit and no value that was never written.",
+            "Tearing is modelled at byte granularity on the record reported next to the memcpy/write; encrypted and plain logs. One known finding (zero-filled MANIFEST tail) is listed in known_findings.jsonl.", "3/C09"),
+    "C10": ("fault_enumeration", "deterministic simulation + durable-state tracker (msync/fsync/dir-fsync) building power-loss images at every persistence event",
+            "With SyncWrites every persistence event of each history is a power-loss point: the image contains only directory entries covered by a directory fsync, each file with the content of its last msync/fsync; it is re-opened with the real code and must contain every commit whose Commit returned nil, as a commit-order prefix.",
+            "Strict model as the property states it. mmap-file syncs are observed inside the instrumented ristretto copy (tied to the real call); MANIFEST append fsync through the syncFunc seam; other fd syncs by vhook lines next to the call. One defect found and fixed (see known_findings.jsonl).", "3/C10"),
+})
+
 PENDING = {}  # property -> reason while not yet implemented
 
 def main():
